@@ -155,7 +155,14 @@ def select_standin(e):
 
     def aw(f):
         return '%s.resolved().await' % f
-    repl = 'if select_nondet() { let %s = %s; %s } else { let %s = %s; %s }' % (p1, aw(f1), e1.strip(), ('_unused' if p2 == '_' else p2), aw(f2), e2.strip())
+    # C12: the arm that fires when the remote stops the stream abandons the exchange -- recognised by SHAPE (its body returns an error without using what
+    # the future yielded); the obligation sits in that arm, so it exists exactly as long as the service's answer is raced against the remote's stop
+    abandon = ''
+    if p2 == '_' and re.match(r'^return\s+Err\b', e2.strip()) and 'do_handle' in (e.key or ''):
+        abandon = ('assert(self.send_stream.inner.o@ == before); // @OBL do_handle::remote_stop_abandons_the_exchange [C12] while the service is working on a request its answer is raced against the remote '
+                   'stopping the stream (the caller abandoned the RPC): when that happens first, the exchange ends at once with an error, nothing has been or will be written, and the service\'s future -- owned by this '
+                   'frame -- is dropped with it instead of being driven to completion\n            ')
+    repl = 'if select_nondet() { let %s = %s; %s } else { let %s = %s; %s%s }' % (p1, aw(f1), e1.strip(), ('_unused' if p2 == '_' else p2), aw(f2), abandon, e2.strip())
     e.text = t[:m.start()] + repl + t[c + 1:]
     e.log('X4', 'tokio::select! with 2 arms replaced by a nondeterministic choice between them')
 
@@ -378,7 +385,7 @@ def build(C):
         r.send_stream.codec.lfl == 4 && r.send_stream.codec.be && r.send_stream.codec.plain && (config.max_frame_size is Some ==> r.send_stream.codec.max == config.max_frame_size->Some_0), // @OBL BiStreamRequestHandler::new::codec_from_config [C15] that limit is the configured maximum frame size
         r.send_stream.inner == send_stream && r.recv_stream.inner == recv_stream && r.recv_stream.buffered@.len() == 0 && r.connection == connection && r.service == service, // @OBL BiStreamRequestHandler::new::wraps_the_given_streams [C02] the handler serves exactly the stream pair it was created for
 ''')
-    t += C.fn(RH, 'impl BiStreamRequestHandler :: fn do_handle', 'BiStreamRequestHandler::do_handle', ['C02', 'C01', 'C06', 'C15'], ret='r',
+    t += C.fn(RH, 'impl BiStreamRequestHandler :: fn do_handle', 'BiStreamRequestHandler::do_handle', ['C02', 'C01', 'C06', 'C15', 'C12'], ret='r',
               sig_rewrites=[('mut self', '&mut self')], transforms=[select_standin],
               body_prefix='\n        broadcast use axiom_empty_ext;\n        let ghost arrived = self.recv_stream.inner.remaining();\n        let ghost before = self.send_stream.inner.o@;\n',
               rewrites=[dict(rule='X5', pattern='crate::Direction', repl='Direction', optional=True),
